@@ -444,7 +444,7 @@ def build_unit(repo: Path, template: Path, checks=False, defs=None):
             item = item[1:-1]
         name = kv["name"]
         occ = int(kv.get("occurrence", "1"))
-        sig, specs, loops, proofs, repls, prologue, loopends, repls_re, insts, epilogue = None, [], {}, [], [], [], {}, [], [], []
+        sig, specs, loops, proofs, repls, prologue, loopends, repls_re, insts, epilogue, attrs = None, [], {}, [], [], [], {}, [], [], [], []
         i += 1
         while not lines[i].strip().startswith("//@END"):
             l = lines[i].strip()
@@ -464,6 +464,8 @@ def build_unit(repo: Path, template: Path, checks=False, defs=None):
                 loops.setdefault(int(m.group(1)), []).append(m.group(2))
             elif l.startswith("//@PROLOGUE"):
                 prologue.append(l[len("//@PROLOGUE"):].strip())
+            elif l.startswith("//@ATTR"):
+                attrs.append(l[len("//@ATTR"):].strip())
             elif l.startswith("//@EPILOGUE"):
                 epilogue.append(l[len("//@EPILOGUE"):].strip())
             elif l.startswith("//@PROOF"):
@@ -554,6 +556,7 @@ def build_unit(repo: Path, template: Path, checks=False, defs=None):
                 raise ExtractError(f"lost anchor: {file}::{name} does not end with a one-line tail expression (EPILOGUE)")
             body = "\n".join(bl[:-1]) + "\n        " + "\n        ".join(epilogue) + "\n" + tail + "\n    "
         out.append(f"// ---- extracted from {file} :: {name} (sha256 of source text {hashlib.sha256(body.encode()).hexdigest()[:12]}) ----")
+        out.extend(attrs)
         out.append(sig)
         out.extend(specs)
         out.append("{" + ("\n        " + "\n        ".join(prologue) if prologue else "") + body + "}")
